@@ -76,6 +76,11 @@ def decorate(rng, c):
     cells = len(c["hist"][-1]) * (len(c["hist"][-1][0]) if isinstance(c["hist"][-1][0], list) else 1)
     if rng.random() < 0.12 and cells <= 24 and c.get("T", 3) <= 5:
         c["nested"] = 1                 # the rule itself runs evolutions of the library (same shape and another one)
+    if rng.random() < 0.18:
+        # what the program did before this call: aborted evolutions, other functions / radii / modes on the same sizes,
+        # short-lived rule objects (harness/prelude.py)
+        from .. import prelude
+        c["prelude"] = prelude.choose(rng, 2 if isinstance(c["hist"][-1][0], list) else 1)
     if rng.random() < 0.1:
         c["layout"] = "ro"              # the caller's array is read-only
     if rng.random() < 0.12 and c["dtype"].startswith(("int", "uint")) and not c["rule"].startswith("half") and not c.get("mixret"):
